@@ -136,6 +136,13 @@ func c13K() *ir.Module {
 	z.Metadata = append(z.Metadata, &metadata.Attachment{Name: "md", Node: md1})
 	w := b.NewAdd(z, f.Params[0])
 	b.NewRet(w)
+	// a struct constant whose type is INFERRED from its fields (NewStruct(nil, ...)), printed as a
+	// typed operand: its Type() is computed on demand by every printer.
+	sc := constant.NewStruct(nil, constant.NewInt(types.I32, 1), constant.NewInt(types.I64, 2))
+	sf := m.NewFunc("", types.NewStruct(types.I32, types.I64))
+	sf.NewBlock("").NewRet(sc)
+	sg := m.NewGlobalDef("", constant.NewStruct(nil, constant.NewInt(types.I32, 3), constant.NewStruct(nil, constant.NewInt(types.I8, 4))))
+	_ = sg
 	h := m.NewFunc("", types.I32)
 	hb := h.NewBlock("")
 	r := hb.NewCall(f, constant.NewInt(types.I32, 1))
@@ -363,8 +370,15 @@ func c13scenarios(quick bool) []c13scenario {
 				if md.name == "P2-parsed-named" && (i > 2 || j > 5) {
 					continue // named-only module: keep a core set
 				}
-				if (md.name == "P3-parsed-2funcs" || md.name == "P5-parsed-mutual-blockaddress") && !(i <= 3 && j <= 3) {
+				if md.name == "P3-parsed-2funcs" && !(i <= 3 && j <= 3) {
 					continue
+				}
+				if md.name == "P5-parsed-mutual-blockaddress" {
+					// lock order between the two functions: module || module, module || function,
+					// function || other function (thorough: all pairs of the first four printers).
+					if !(i <= 3 && j <= 3) || (quick && !((i == 0 && j == 0) || (i == 0 && j == 3) || (i == 2 && j == 3))) {
+						continue
+					}
 				}
 				if md.name == "P4-generated-all-kinds" && !(i == 0 && j <= 1) {
 					continue // whole-module printers only (about 230 lock operations per thread)
@@ -416,7 +430,7 @@ func c13scenarios(quick bool) []c13scenario {
 		}
 		// four threads ("any number of goroutines"): two whole-module printers and two function-level
 		// printers, one preemption in quick, two in thorough.
-		if md.name == "P1-parsed-unnamed" || md.name == "K2-constructed-printed-once" || (!quick && md.name == "P3-parsed-2funcs") {
+		if md.name == "P1-parsed-unnamed" || (!quick && (md.name == "K2-constructed-printed-once" || md.name == "P3-parsed-2funcs")) {
 			b4 := 1
 			if !quick {
 				b4 = 2
